@@ -143,6 +143,99 @@ fn cyclic_items(rng: &mut Rng) -> Vec<String> {
     }
 }
 
+/// Dependency positions: a function reads (or assigns) a global at exactly ONE syntactic position and a
+/// global is initialised by calling that function; the four top-level items are tried in six orders
+/// and must behave like the order in which every definition precedes its users.
+/// (position name, which global kind the function touches, function body)
+const DEP_POSITIONS: &[(&str, &str, &str)] = &[
+    ("ret value", "int", "ret dgv + 1"),
+    ("trailing expression", "int", "dgv + 1"),
+    ("if condition", "int", "if dgv > 5 do\n    ret 1\nend\n0"),
+    ("elif condition", "int", "if false do\n    ret 2\nelif dgv > 5 do\n    ret 1\nend\n0"),
+    ("loop condition", "int", "i := 0\nloop i < dgv do\n    i += 1\nend\ni"),
+    ("case scrutinee", "enum", "case dgv do\n    A q -> q end\n    else 0 end\nend"),
+    ("case arm body", "int", "case DG_E.B do\n    A q -> q end\n    B -> dgv end\nend"),
+    ("case else body", "int", "case DG_E.B do\n    A q -> q end\n    else dgv end\nend"),
+    ("call argument", "int", "dg_id(dgv)"),
+    ("prime call argument", "int", "dg_id' dgv"),
+    ("arrow call receiver", "int", "dgv -> dg_id()"),
+    ("tuple element", "int", "(dgv, 1)[0]"),
+    ("list element", "int", "k :: [dgv]\nfold(k, 0, pu x, acc -> acc + x end)"),
+    ("blob field initialiser", "int", "b :: DG_B { f: dgv }\nb.f"),
+    ("unary operand", "int", "-dgv"),
+    ("left operand of and", "int", "k :: dgv > 5 and true\nif k do\n    ret 1\nend\n0"),
+    ("right operand of or", "int", "k :: false or dgv > 5\nif k do\n    ret 1\nend\n0"),
+    ("assert operand", "int", "dgv <=> 10\n0"),
+    ("index base", "tuple", "dgv[0]"),
+    ("field base", "blob", "dgv.f"),
+    ("assignment right-hand side", "int", "x := 0\nx = dgv\nx"),
+    ("compound assignment right-hand side", "int", "x := 1\nx += dgv\nx"),
+    ("constant definition", "int", "x :: dgv\nx"),
+    ("typed definition", "int", "x: int = dgv\nx"),
+    ("closure body", "int", "h :: fn -> int do\n    dgv\nend\nh()"),
+    ("lambda argument body", "int", "dg_apply(fn -> int do\n    dgv\nend)"),
+    ("method body", "int", "o :: DG_M { m: fn -> int do\n    dgv\nend }\no.m()"),
+    ("nested block", "int", "x := 0\ndo\n    x = dgv\nend\nx"),
+    ("if arm body", "int", "x := 0\nif true do\n    x = dgv\nend\nx"),
+    ("else arm body", "int", "x := 0\nif false do\n    x = 1\nelse do\n    x = dgv\nend\nx"),
+    ("loop body", "int", "x := 0\ni := 0\nloop i < 1 do\n    i += 1\n    x = dgv\nend\nx"),
+    ("if-expression arm value", "int", "if true do\n    dgv\nelse do\n    0\nend"),
+    ("fold callback", "int", "fold([1], 0, pu x, acc -> acc + dgv end)"),
+    ("after an early ret", "int", "if false do\n    ret 0\nend\ndgv"),
+    ("assignment target", "mutable", "dgv = 8\ndgv"),
+    ("compound assignment target", "mutable", "dgv += 1\ndgv"),
+    ("field assignment base", "blob", "dgv.f = 9\ndgv.f"),
+];
+
+fn dependency_position_case(index: u64, st: &mut Stats) {
+    let (pos, kind, body) = DEP_POSITIONS[index as usize % DEP_POSITIONS.len()];
+    let fixed = "DG_E :: enum\n    A int,\n    B,\nend\n\nDG_B :: blob {\n    f: int,\n}\n\nDG_M :: blob {\n    m: fn -> int,\n}\n\ndg_id :: fn a: int -> int do\n    a\nend\n\ndg_apply :: fn f: fn -> int -> int do\n    f()\nend\n\n";
+    let g = match kind {
+        "int" => "dgv :: 10\n",
+        "enum" => "dgv :: DG_E.A 3\n",
+        "tuple" => "dgv :: (4, 5)\n",
+        "blob" => "dgv :: DG_B { f: 6 }\n",
+        _ => "dgv := 7\n",
+    };
+    let f = format!("dgf :: fn -> int do\n{}\nend\n", body.lines().map(|l| format!("    {}", l)).collect::<Vec<_>>().join("\n"));
+    let r = "dgr :: dgf()\n";
+    let s = "start :: fn do\n    print(dgr)\nend\n";
+    let items = [g, f.as_str(), r, s];
+    // item indices: 0 = global, 1 = function, 2 = global initialised through the function, 3 = start
+    let orders: [[usize; 4]; 6] = [[0, 1, 2, 3], [1, 2, 0, 3], [2, 1, 0, 3], [3, 2, 1, 0], [1, 0, 2, 3], [2, 0, 1, 3]];
+    let render = |o: &[usize; 4]| format!("{}{}", fixed, o.iter().map(|i| items[*i]).collect::<Vec<_>>().join("\n"));
+    st.count("dependency_position_programs");
+    st.count(&format!("dependency_position:{}", pos));
+    let reference = behaviour(&sy::one_file(&render(&orders[0])), "main.sy");
+    let viol = |sig: &str, order: &[usize; 4], b: &Behaviour| Violation {
+        signature: sig.to_string(),
+        hazard: None,
+        case: index,
+        detail: J::obj()
+            .with("position", J::s(pos))
+            .with("order", J::s(format!("{:?} (0 = global, 1 = function reading it, 2 = global initialised by calling the function, 3 = start)", order)))
+            .with("program", J::s(render(order)))
+            .with("behaviour", J::s(format!("{:?}", b).chars().take(500).collect::<String>()))
+            .with("reference_behaviour", J::s(format!("{:?}", reference).chars().take(500).collect::<String>())),
+    };
+    match &reference {
+        Behaviour::Ran { outcome, monitor: None, prints } if outcome == "ok" && prints.len() == 1 => {}
+        other => {
+            st.violation(viol("order:dependency-position-template-broken", &orders[0], other));
+            return;
+        }
+    }
+    for o in &orders[1..] {
+        st.count("dependency_position_orders_compiled");
+        let b = behaviour(&sy::one_file(&render(o)), "main.sy");
+        if b != reference {
+            st.violation(viol(&format!("order:dependency-position-differs:{}", pos), o, &b));
+            return;
+        }
+    }
+    st.count("dependency_position_programs_order_independent");
+}
+
 impl Check for C11 {
     fn id(&self) -> &'static str {
         "C11"
@@ -151,6 +244,9 @@ impl Check for C11 {
         scaled(ctx, 4_000, 100_000)
     }
     fn run_case(&self, ctx: &Ctx, index: u64, st: &mut Stats) {
+        if (index as usize) < DEP_POSITIONS.len() {
+            dependency_position_case(index, st);
+        }
         let mut rng = Rng::for_case(ctx.seed, "C11", index);
         let p = augmented(&mut rng, 2);
         let name = default_name(&p);
